@@ -105,7 +105,7 @@ def rule_tls_restore(ctx, cfg, F):
             """`&mut s.field` / `&mut (*r).field` with r = &mut s  ->  ("L", s, (field index, ..)); None if not a field of a local"""
             l = op_local(a)
             path = ()
-            for _ in range(8):
+            for _ in range(32):
                 if l is None:
                     return None
                 ds = [d for d in f.defs().get(l, []) if not f.is_cleanup(d[0]) and not (d[1] is not None and d[2]["lhs"].get("p"))]
